@@ -101,6 +101,19 @@ func c15csugg(m dsl.Matcher) {
 	m.MatchComment(` + "`//c15z:(?P<body>\\w*)`" + `).Suggest(` + "`$body`" + `)
 }
 
+// pairs of rules in which one rule's Report template is spelled exactly like another rule's Suggest template
+func c15r(m dsl.Matcher) {
+	m.Match(` + "`probe5($x)`" + `).Report(` + "`$x`" + `)
+}
+
+func c15p(m dsl.Matcher) {
+	m.Match(` + "`probe6($x)`" + `).Suggest(` + "`P$x`" + `)
+}
+
+func c15q(m dsl.Matcher) {
+	m.Match(` + "`probe7($x)`" + `).Report(` + "`P$x`" + `)
+}
+
 func c15comment(m dsl.Matcher) {
 	m.MatchComment(` + "`//c15:(?P<body>\\w*)`" + `).Report(` + "`V=$body;W=$$;`" + `).Suggest(` + "`$body`" + `)
 }
@@ -138,7 +151,11 @@ func main() {
 
 	// engine level
 	var sb strings.Builder
-	sb.WriteString("package target\n\nfunc probe(string) {}\nfunc probe2(string) {}\nfunc probe3(*int) {}\nfunc probe4(a, b, c string) {}\n\nfunc f() {\n")
+	sb.WriteString("package target\n\nfunc probe(string) {}\nfunc probe2(string) {}\nfunc probe3(*int) {}\nfunc probe4(a, b, c string) {}\nfunc probe5(string) {}\nfunc probe6(string) {}\nfunc probe7(string) {}\n\nfunc f() {\n")
+	// rendered first in every run: a Report template "$x" (later Suggest templates are spelled the same) and a
+	// Suggest template "P$x" (later Report templates are spelled the same), both over a text longer than any limit used
+	long := "\"" + strings.Repeat("Lo0ng", 60) + "\""
+	fmt.Fprintf(&sb, "\tprobe5(%s)\n\tprobe6(%s)\n", long, long)
 	const alphabet = "abcdefghijklmnopqrstuvwxyz0123456789ABCDEFGHIJKLMNOPQRSTUVWXYZ"
 	var texts []string
 	for n := 0; n <= *maxN+40; n++ {
@@ -153,6 +170,7 @@ func main() {
 		fmt.Fprintf(&sb, "\tprobe(%s)\n", lit.String())
 		fmt.Fprintf(&sb, "\t//c15:%s\n", strings.Trim(lit.String(), "\""))
 		fmt.Fprintf(&sb, "\tprobe2(%s)\n", lit.String())
+		fmt.Fprintf(&sb, "\tprobe5(%s)\n\tprobe6(%s)\n\tprobe7(%s)\n", lit.String(), lit.String(), lit.String())
 		fmt.Fprintf(&sb, "\t//c15z:%s\n", strings.Trim(lit.String(), "\""))
 		ident := "v" + strings.Trim(lit.String(), "\"")
 		fmt.Fprintf(&sb, "\tvar %s int\n\tprobe3(&%s)\n", ident, ident)
@@ -190,7 +208,7 @@ func main() {
 			shared.Ctx.TruncateLen = L
 			reports, pmsg = shared.Run(e)
 		}
-		enc.Encode(engineObs{K: "count", L: L, Panic: pmsg, NRep: len(reports), Msg: fmt.Sprint(6 * len(texts))})
+		enc.Encode(engineObs{K: "count", L: L, Panic: pmsg, NRep: len(reports), Msg: fmt.Sprint(9*len(texts) + 2)})
 		if pmsg != "" {
 			continue
 		}
@@ -198,6 +216,12 @@ func main() {
 			switch r.Group {
 			case "c15":
 				enc.Encode(engineObs{K: "engine", Text: string(t.Src[r.Pos+len("probe(") : r.End-1]), L: L, Msg: r.Message, Sugg: r.Sugg, NRep: len(reports)})
+			case "c15r":
+				enc.Encode(engineObs{K: "rx", Text: string(t.Src[r.Pos+len("probe5(") : r.End-1]), L: L, Msg: r.Message, Sugg: r.Sugg, NRep: len(reports)})
+			case "c15p":
+				enc.Encode(engineObs{K: "px", Text: string(t.Src[r.Pos+len("probe6(") : r.End-1]), L: L, Msg: r.Message, Sugg: r.Sugg, NRep: len(reports)})
+			case "c15q":
+				enc.Encode(engineObs{K: "qx", Text: string(t.Src[r.Pos+len("probe7(") : r.End-1]), L: L, Msg: r.Message, Sugg: r.Sugg, NRep: len(reports)})
 			case "c15amp":
 				enc.Encode(engineObs{K: "amp", Text: string(t.Src[r.Pos+len("probe3(&") : r.End-1]), L: L, Msg: r.Message, Sugg: r.Sugg, NRep: len(reports)})
 			case "c15two":
